@@ -21,6 +21,7 @@ RULE = (
     'and a non-cubic grid; distinct = SHA-1 of (cell, resolution, positions) / grid size.'
 )
 RULE += ' Added in rounds 6-9: result retention and a second volume on the same grid while the first is held; L/resolution within 1e-8..6e-4 of an integer; one grid of about 19 million voxels (large along all three axes).'
+RULE += ' Round 16: a sixth of the runs also stored in single precision (k/10 as float32).'
 RULE += ' Round 14: the resolution is passed positionally in half of the calls.'
 RULE += ' Round 12: one volume (three in the thorough tier) binned from 4.3-5.5 million samples clustered in a few voxels, compared with a bincount of floor(x * n).'
 ASSUMPTIONS = [
@@ -229,6 +230,23 @@ def run_unit(unit, rng, ctx):
     p_edge, p_host = float(rng.choice([0.0, 0.1, 0.4])), float(rng.choice([0.0, 0.1, 0.4]))
     X = np.where(sel < p_edge, edges, np.where(sel < p_edge + p_host, hostile, X))
     traj = gen.make_trajectory(m, gen.species_objects(['Li'] * N), X)
+    if unit['i'] % 6 == 2:
+        # the same kind of run stored in single precision (coordinates k/10, k/7 ... as float32 are not the float64
+        # k/10): every sample lies in voxel floor(x n) of the value it actually has
+        from gemdat import Trajectory
+        from pymatgen.core import Lattice
+
+        X32 = np.asarray(np.where(rng.uniform(size=X.shape) < 0.5, rng.integers(0, 10, size=X.shape) / 10.0, np.mod(X, 1)), dtype=np.float32)
+        X32[X32 >= 1] = 0
+        t32 = Trajectory(species=gen.species_objects(['Li'] * N), coords=X32.copy(), lattice=Lattice(m), time_step=1e-15, metadata={'temperature': 300.0})
+        d32 = np.asarray(t32.to_volume(resolution=res).data)
+        n32 = np.array(d32.shape)
+        sc32 = np.asarray(X32, dtype=float).reshape(-1, 3) * n32
+        amb32 = int(np.sum(np.abs(sc32 - np.round(sc32)) < 1e-9))
+        want32 = np.bincount(np.ravel_multi_index(np.minimum(np.floor(sc32).astype(int), n32 - 1).T, tuple(n32)), minlength=int(d32.size)).reshape(tuple(n32))
+        dev32 = int(np.abs(d32 - want32).sum())
+        ctx.check(int(d32.sum()) == T * N and dev32 <= 2 * amb32, f'{kind} T={T} N={N} resolution={res!r} [float32 coordinates]: voxel counts differ from floor(x n) of the stored values (total deviation {dev32}, {amb32} samples on a voxel face, grid {n32.tolist()})', {'matrix': m, 'resolution': res})
+        ctx.count('volumes_from_float32_coordinates')
     what = f'{kind}{"/rot" if rot else ""} T={T} N={N} resolution={res!r} ({res_mode})'
     wit = {'matrix': m, 'resolution': res, 'positions': X}
     before = snap.traj_content(traj)
